@@ -15,6 +15,8 @@ func init() {
 }
 
 func runC02(c *Ctx) {
+	borrow(c, "O15", "C17", "O1", "", "a reservation pod that is created, inspected and deleted without its group's mutex can be deleted by a concurrent node sync between its creation and the labelling of its first sharer: the sharer stays on a device that the device plugin hands out again")
+	runC02PortionRounding(c)
 	borrow(c, "O10", "C13", "O9", "PodInfo.GPUGroups restored before", "an undone eviction re-adds the sharer to its node under the group ids it carries at that moment: with the ids of the simulated placement its share leaves the real device, which then looks free")
 	borrow(c, "O11", "C12", "O1", "GPUGroups taken from the BindRequest", "a nominated multi-device sharer is charged to the groups its BindRequest selected; the labels the binder has written so far are a subset")
 	borrow(c, "O12", "C14", "O10", "is decided by the state of the GPU group", "a shared device is charged as one whole GPU exactly while it has sharers: the ±1 on Idle/Releasing must be tied to the first / last sharer of the group")
@@ -439,4 +441,35 @@ func isStringType(v ssa.Value) bool {
 func fromSliceParam(v ssa.Value) bool {
 	t := termOf(v)
 	return t.contains(func(x *Term) bool { return x.Op == "index" || x.Op == "lookup" })
+}
+
+// runC02PortionRounding (O14): a gpu-memory request is turned into a portion of one device, and isValidGpuPortion
+// refuses portions above 1 — the only test that the request fits a single device. The portion must therefore never
+// be rounded DOWN: a request slightly above the device's memory would round to 1.00 and be placed on a shared
+// device whose used memory then exceeds its size.
+func runC02PortionRounding(c *Ctx) {
+	f := c.Anchor("O14", pkgNodeInfo, "NodeInfo", "getGpuMemoryFractionalOnNode")
+	if f == nil {
+		return
+	}
+	n := 0
+	for _, h := range c.P.deepFind(f, func(in ssa.Instruction) bool {
+		cc, ok := in.(ssa.CallInstruction)
+		return ok && calleeOf(cc) != nil && funcPkgPath(calleeOf(cc)) == "math"
+	}, 1) {
+		name := calleeOf(h.In.(ssa.CallInstruction)).Name()
+		switch name {
+		case "Round", "Floor", "Trunc", "RoundToEven":
+			n++
+			c.Viol("O14", "PROV", funcKey(f)+": the portion of a gpu-memory request is never rounded down", instrPos(h.In),
+				"math."+name+" rounds the requested share of a device down for some values: a gpu-memory request slightly larger than one device's memory becomes portion 1.00, passes isValidGpuPortion and is placed on a shared device beyond its size")
+		case "Ceil":
+			n++
+			c.Hold("O14", "PROV", funcKey(f)+": the portion of a gpu-memory request is never rounded down", instrPos(h.In), "math.Ceil")
+		}
+	}
+	if n == 0 {
+		// no rounding at all: the exact ratio is not below the request
+		c.Hold("O14", "PROV", funcKey(f)+": the portion of a gpu-memory request is never rounded down", f.Pos(), "exact ratio")
+	}
 }
